@@ -101,7 +101,7 @@ def compare(m, r, rel=1e-9):
     return None
 
 
-def build(u_):
+def build(u_, rad=False):
     import astropy.units as u
     from astropy.coordinates import SkyCoord
 
@@ -128,6 +128,8 @@ def build(u_):
     kw = {'meta': meta, 'visual': visual}
     K = getattr(R, CLS[cls] + ('PixelRegion' if pix else 'SkyRegion'))
     ang = ds9text.value(u_['ang'])[1] * u.deg if u_['ang']['u'] != 'none' else None
+    if ang is not None and rad:
+        ang = ang.to(u.rad)          # the angle is handed over in another unit
     if cls == 'circle':
         return K(coord(0), sz[0], **kw)
     if cls in ('ellipse', 'rectangle'):
@@ -223,7 +225,7 @@ def run(ctx):
             case = {'list': lst, 'opts': opts}
             ctx.case((json.dumps(lst, sort_keys=True), json.dumps(opts)), True)
             try:
-                regs = [build(u_) for u_ in lst]
+                regs = [build(u_, rad=bool(idx % 2)) for u_ in lst]
                 with warnings.catch_warnings():
                     warnings.simplefilter('ignore')
                     text = Regions(regs).serialize(format='crtf', coordsys=opts['coordsys'], fmt='.6f', radunit=opts['radunit'])
